@@ -371,13 +371,42 @@ func (i *interpreter) concInt(v value, label string) int64 {
 
 // mapKey makes a map key concrete.
 func (i *interpreter) mapKey(k value) value {
-	if s, ok := k.(symInt); ok {
-		return i.concretize(s, "map key")
-	}
-	if _, ok := k.(symBool); ok {
+	c, _ := i.mapKeyRec(k)
+	return c
+}
+
+// mapKeyRec concretizes the symbolic integers of a key, also inside struct and
+// array keys (copy on write).
+func (i *interpreter) mapKeyRec(k value) (value, bool) {
+	switch a := k.(type) {
+	case symInt:
+		return i.concretize(a, "map key"), true
+	case symBool:
 		panic(engineError{"symbolic bool map key"})
+	case structure:
+		out, changed := a, false
+		for n, e := range a {
+			if c, ch := i.mapKeyRec(e); ch {
+				if !changed {
+					out, changed = append(structure(nil), a...), true
+				}
+				out[n] = c
+			}
+		}
+		return out, changed
+	case array:
+		out, changed := a, false
+		for n, e := range a {
+			if c, ch := i.mapKeyRec(e); ch {
+				if !changed {
+					out, changed = append(array(nil), a...), true
+				}
+				out[n] = c
+			}
+		}
+		return out, changed
 	}
-	return k
+	return k, false
 }
 
 // lookup returns x[idx] where x is a map.
